@@ -746,4 +746,224 @@ theorem dddmpReindex_ok (L : List (Tok × Int)) (hkeys : (L.map (·.1)).Nodup)
       simp [hd]
     · exact dictGet_some_mem _ hd
 
+/-! ### the new manager `BDD(new_levels)` -/
+
+/-- a manager without nodes -/
+def mgrOf (V : TreeMap String Nat) (W : TreeMap Nat String) : Mgr :=
+  { tbl := { vars := V, l2v := W } }
+
+theorem Inv.mgrOf (V : TreeMap String Nat) (W : TreeMap Nat String) : Inv (mgrOf V W) := by
+  refine ⟨⟨⟨?_, ?_, ?_, ?_, ?_, ?_, ?_, ?_⟩, ?_⟩, ?_, ?_, ?_, ?_, ?_, ?_⟩ <;>
+    simp [Tbl.node?, DD.mgrOf] <;> try decide
+
+theorem addVar_fresh (var : String) (l : Int) (V : TreeMap String Nat) (W : TreeMap Nat String)
+    (hv : V[var]? = none) (hl : 0 ≤ l) (hw : W[l.toNat]? = none) :
+    addVar var (some l) (mgrOf V W) = (.ok l.toNat, mgrOf (V.insert var l.toNat) (W.insert l.toNat var)) := by
+  have hl' : ¬ (l < 0) := by omega
+  simp [addVar, bind, M.bind', M.get, M.set, mgrOf, hv, hw, hl', pure, M.pure']
+
+/-- the variable tables after the variables `done` have been added -/
+structure VarsQ (V : TreeMap String Nat) (W : TreeMap Nat String) (done : List (Tok × Int)) : Prop where
+  size : V.size = done.length
+  vmem : ∀ s, V[s]? ≠ none → s ∈ done.map (·.1.show)
+  wmem : ∀ i : Nat, W[i]? ≠ none → (i : Int) ∈ done.map (·.2)
+  wget : ∀ var (i : Nat), (var, (i : Int)) ∈ done → W[i]? = some var.show
+
+theorem dddmpAddVars_ok : ∀ (rest done : List (Tok × Int)) (V : TreeMap String Nat)
+    (W : TreeMap Nat String), VarsQ V W done →
+    ((done ++ rest).map (·.1.show)).Nodup → ((done ++ rest).map (·.2)).Nodup →
+    (∀ p ∈ rest, 0 ≤ p.2) →
+    ∃ V' W', dddmpAddVars rest (mgrOf V W) = (.ok (), mgrOf V' W') ∧ VarsQ V' W' (done ++ rest) := by
+  intro rest
+  induction rest with
+  | nil =>
+    intro done V W hq _ _ _
+    exact ⟨V, W, rfl, by simpa using hq⟩
+  | cons p rest ih =>
+    intro done V W hq hn hl hpos
+    obtain ⟨var, l⟩ := p
+    have hl0 : 0 ≤ l := hpos (var, l) List.mem_cons_self
+    have hlt : ((l.toNat : Nat) : Int) = l := by omega
+    have hvfresh : V[var.show]? = none := by
+      apply Classical.byContradiction
+      intro hne
+      have hm := hq.vmem _ hne
+      rw [List.map_append, List.map_cons] at hn
+      exact (List.nodup_append.mp hn).2.2 _ hm _ List.mem_cons_self rfl
+    have hwfresh : W[l.toNat]? = none := by
+      apply Classical.byContradiction
+      intro hne
+      have hm := hq.wmem _ hne
+      rw [hlt] at hm
+      rw [List.map_append, List.map_cons] at hl
+      exact (List.nodup_append.mp hl).2.2 _ hm _ List.mem_cons_self rfl
+    have hstep := addVar_fresh var.show l V W hvfresh hl0 hwfresh
+    have hq' : VarsQ (V.insert var.show l.toNat) (W.insert l.toNat var.show) (done ++ [(var, l)]) := by
+      refine ⟨?_, ?_, ?_, ?_⟩
+      · have : V.contains var.show = false := by
+          rw [TreeMap.contains_eq_isSome_getElem?, hvfresh]; rfl
+        rw [TreeMap.size_insert, this]
+        simp [hq.size]
+      · intro s hs
+        rw [TreeMap.getElem?_insert] at hs
+        split at hs
+        · next h =>
+          have : var.show = s := by simpa using h
+          simp [← this]
+        · have := hq.vmem s hs
+          simp only [List.map_append, List.mem_append]
+          exact Or.inl this
+      · intro i hi
+        rw [TreeMap.getElem?_insert] at hi
+        split at hi
+        · next h =>
+          have : l.toNat = i := by simpa using h
+          simp only [List.map_append, List.mem_append]
+          right
+          simp [← this, hlt]
+        · have := hq.wmem i hi
+          simp only [List.map_append, List.mem_append]
+          exact Or.inl this
+      · intro var' i hm
+        rw [TreeMap.getElem?_insert]
+        rcases List.mem_append.mp hm with hd | hd
+        · have hne : ¬ (compare l.toNat i = .eq) := by
+            intro h
+            have : l.toNat = i := by simpa using h
+            rw [List.map_append, List.map_cons] at hl
+            have hmem : (i : Int) ∈ done.map (·.2) := List.mem_map.mpr ⟨(var', (i : Int)), hd, rfl⟩
+            refine (List.nodup_append.mp hl).2.2 _ hmem l List.mem_cons_self ?_
+            omega
+          simp [hne, hq.wget var' i hd]
+        · simp only [List.mem_singleton, Prod.mk.injEq] at hd
+          obtain ⟨rfl, hil⟩ := hd
+          have : l.toNat = i := by omega
+          simp [this]
+    obtain ⟨V', W', hrest, hq''⟩ := ih (done ++ [(var, l)]) _ _ hq'
+      (by simpa [List.append_assoc] using hn) (by simpa [List.append_assoc] using hl)
+      (fun p hp => hpos p (List.mem_cons_of_mem _ hp))
+    refine ⟨V', W', ?_, by simpa [List.append_assoc] using hq''⟩
+    rw [dddmpAddVars]
+    show (match addVar var.show (some l) (mgrOf V W) with
+      | (Except.error e, m') => (Except.error e, m')
+      | (Except.ok _, m') => dddmpAddVars rest m') = _
+    rw [hstep]
+    exact hrest
+
+theorem dddmpNewMgr_ok (NL : List (Tok × Int))
+    (hv : NL.map (·.2) = (List.range NL.length).map (fun (i : Nat) => (i : Int)))
+    (hnames : (NL.map (·.1.show)).Nodup) :
+    ∃ V W, dddmpNewMgr NL = .ok (mgrOf V W) ∧ V.size = NL.length ∧
+      ∀ var (i : Nat), (var, (i : Int)) ∈ NL → W[i]? = some var.show := by
+  have hmem : ∀ k : Int, k ∈ NL.map (·.2) ↔ ∃ i : Nat, i < NL.length ∧ (i : Int) = k := by
+    intro k
+    rw [hv]
+    simp [List.mem_map, List.mem_range]
+  have hokv : ((List.range NL.length).all (fun i => (NL.map (·.2)).contains (i : Int)) &&
+      (NL.map (·.2)).all (fun k => decide (0 ≤ k) && decide (k < (NL.length : Int)))) = true := by
+    rw [Bool.and_eq_true, List.all_eq_true, List.all_eq_true]
+    constructor
+    · intro i hi
+      rw [List.contains_iff_mem, hmem]
+      exact ⟨i, List.mem_range.mp hi, rfl⟩
+    · intro k hk
+      obtain ⟨i, hi, rfl⟩ := (hmem k).mp hk
+      simp
+      omega
+  have hvnd : ((([] : List (Tok × Int)) ++ NL).map (·.2)).Nodup := by
+    rw [List.nil_append, hv]
+    exact nodup_map_of_inj_on _ _ (fun a _ b _ h => by omega) List.nodup_range
+  have hpos : ∀ p ∈ NL, 0 ≤ p.2 := by
+    intro p hp
+    obtain ⟨i, _, hi⟩ := (hmem p.2).mp (List.mem_map.mpr ⟨p, hp, rfl⟩)
+    omega
+  have hq0 : VarsQ ({} : TreeMap String Nat) ({} : TreeMap Nat String) [] :=
+    ⟨by simp, by simp, by simp, by simp⟩
+  obtain ⟨V, W, hrun, hq⟩ := dddmpAddVars_ok NL [] {} {} hq0 (by simpa using hnames) hvnd hpos
+  refine ⟨V, W, ?_, by simpa using hq.size, fun var i hm => hq.wget var i (by simpa using hm)⟩
+  unfold dddmpNewMgr
+  simp only [hokv]
+  have : (({} : Mgr)) = mgrOf {} {} := rfl
+  rw [this, hrun]
+  rfl
+
+/-! ### `load` on a well-formed file -/
+
+/-- `load` succeeds on a well-formed file; the manager satisfies the invariant; `umap`
+sends every node number of the file to a reference that denotes, by variable name, what
+the node list says — whatever the numbering of the nodes is -/
+theorem dddmpLoad_nodes_of_foaSpec (H : FoaSpec) (f : DddmpFile) (hf : f.WF) :
+    ∃ m umap, loadDddmpU f = .ok (m, umap) ∧ Inv m ∧
+      ∀ x ∈ f.nodes, ∃ r, dictGet umap x.u = some r ∧ m.tbl.Mem r ∧
+        ∀ α, den m.tbl r (asgOf m.tbl α) = evalFile f α x.u := by
+  obtain ⟨i2p, levels, roots, nv, hh, hnv, hw⟩ := hf
+  have hT := dddmpHeader_T hh hnv
+  have hbody := dddmpBody_ok hw hT
+  have hkeys : (levels.map (·.1)).Nodup := by
+    have h := hw.namesNodup
+    have e : levels.map (·.1.show) = (levels.map (·.1)).map Tok.show := by rw [List.map_map]; rfl
+    rw [e] at h
+    exact nodup_of_nodup_map _ _ h
+  obtain ⟨NL, o2n, hre, hNLv, hNLperm, hrank⟩ := dddmpReindex_ok levels hkeys hw.levelsNodup
+  have hlen : NL.length = levels.length := by
+    have := congrArg List.length hNLv
+    simpa using this
+  have hNLnames : (NL.map (·.1.show)).Nodup := by
+    have e : NL.map (·.1.show) = (NL.map (·.1)).map Tok.show := by rw [List.map_map]; rfl
+    have e' : levels.map (·.1.show) = (levels.map (·.1)).map Tok.show := by rw [List.map_map]; rfl
+    rw [e]
+    exact (hNLperm.map Tok.show).nodup_iff.mpr (e' ▸ hw.namesNodup)
+  obtain ⟨V, W, hnm, hsize, hW⟩ := dddmpNewMgr_ok NL (by rw [hlen]; exact hNLv) hNLnames
+  have hSlen : (sortInts (levels.map (·.2))).length = levels.length := by
+    simpa using (sortInts_perm (levels.map (·.2))).length_eq
+  have C : DddmpRCtx f i2p levels nv o2n NL.length W := by
+    refine ⟨hw, hT, ?_, ?_⟩
+    · intro var k hm
+      obtain ⟨i, hi, hmem, hS⟩ := hrank var k hm
+      refine ⟨i, hi, ?_, hW var i hmem⟩
+      have := (List.getElem?_eq_some_iff.mp hS).1
+      omega
+    · intro k k' i i' hk hk' hlt hi hi'
+      obtain ⟨p, hp, rfl⟩ := List.mem_map.mp hk
+      obtain ⟨p', hp', rfl⟩ := List.mem_map.mp hk'
+      obtain ⟨j, hj, _, hS⟩ := hrank p.1 p.2 hp
+      obtain ⟨j', hj', _, hS'⟩ := hrank p'.1 p'.2 hp'
+      rw [hi] at hj
+      rw [hi'] at hj'
+      have e1 : i = j := by have := Option.some.inj hj; omega
+      have e2 : i' = j' := by have := Option.some.inj hj'; omega
+      subst e1 e2
+      exact sorted_index_lt (sortInts_sorted _) hS hS' hlt
+  have hs0 : DddmpSt f i2p levels nv o2n NL.length W (mgrOf V W) dddmpUmap0
+      (fun y => ∃ i, DddmpLvl i2p o2n y i ∧ NL.length ≤ i) := by
+    refine ⟨Inv.mgrOf V W, rfl, rfl, hsize, by decide, ?_⟩
+    intro y _ hyn hd
+    exfalso
+    obtain ⟨i, hl, hge⟩ := hd
+    obtain ⟨k, _, i', hk, _, hi', hlt, _⟩ := C.lvl_of_node hyn
+    have := hl.det ⟨k, hk, hi'⟩
+    omega
+  obtain ⟨m, umap, hrb, hs⟩ := DddmpSt.rebuild H C NL.length (Nat.le_refl _) _ _ hs0
+  refine ⟨{ m with roots := roots }, umap, ?_, ?_, ?_⟩
+  · simp only [loadDddmpU, hh, hbody, hre, hnm, hrb]
+  · exact ⟨hs.inv.wf, hs.inv.pred, hs.inv.freeGe, hs.inv.free, hs.inv.refOne, hs.inv.refDom,
+      hs.inv.cache⟩
+  · intro x hx
+    have hev : ∀ α y, evalFile f α y = evalFileF i2p levels f.nodes α (nv + 2).toNat y := by
+      intro α y
+      simp [evalFile, hh, hnv]
+    have hasg : ∀ α, asgOf ({ m with roots := roots } : Mgr).tbl α = asgOfMap W α := by
+      intro α
+      show asgOfMap m.tbl.l2v α = _
+      rw [hs.l2v]
+    rcases hw.line x hx with ht | hnode
+    · refine ⟨1, by rw [ht.1]; exact hs.term, Or.inl rfl, ?_⟩
+      intro α
+      rw [den_one, hev, ht.1, hw.evalFileF_term α hx ht]
+    · obtain ⟨r, hr, hm, _, hden⟩ := hs.good x hx hnode trivial
+      refine ⟨r, hr, hm, ?_⟩
+      intro α
+      rw [hasg, hev]
+      exact hden α
+
 end DD
